@@ -14,9 +14,9 @@ import (
 
 func init() {
 	register("C13", &propDef{
-		Level: "proof",
+		Level:   "proof",
 		Explain: "Sound effect analysis over every function reachable from the exported API (call graph: static callees + VTA, closures included), for all inputs, call orders and schedules: P1 no package-level mutable state (every global access classified), P2 caller-owned argument memory is only read (taint from reference-typed API parameters through slicing, phis, in-module calls, stores; sinks = stores/append/copy/mutating stdlib), P3 no output and only classified-pure stdlib callees, P4 no source of nondeterminism (map iteration, select, channels, goroutines, clock, randomness, pointer formatting), P5 no write reaches shared memory (follows from P1-P3, one obligation per store), P6 exported results are fresh or immutable on every path. obligations == discharged is required.",
-		Run:   rulesC13,
+		Run:     rulesC13,
 		Trusted: []string{"go/ssa lowering and call-graph soundness in the absence of reflect/unsafe/cgo (their absence is itself checked)", "the stdlib classification table in effects.go (pure / mutates-arg / forbidden; unknown callees are undecided)", "stdlib types used (regexp.Regexp, errors.errorString) are immutable or documented concurrency-safe", "the Go memory model"},
 	})
 }
